@@ -28,9 +28,13 @@ Classify(cfg, o, w) ==
     [] w.c = "C05.unrelated" /\ w.k = "in_nothing_left" /\ (Sub(o, w.a) \cap EvOf(StrandedR(cfg, o))) # {}                 -> "F2"
     [] w.c = "C05.unrelated" /\ w.k = "in_nothing_left" /\ SomeBounded(cfg) /\
        \E d \in Sub(o, w.a) : ~o.snap[d].sig /\ o.snap[d].res # <<>> /\ ResDone(o.snap[d]) /\ InNoHistory(o, d)            -> "F11"
+    \* F0 again: an unrelated event drained inline runs under the draining handler's timeout; when that fires, the handlers of the
+    \* unrelated event that had not started are failed without ever running
+    [] w.c = "C01.missing" /\ <<w.b, w.e, "Cancelled">> \in o.procX /\ (\E tk \in o.take : tk[1] = w.b /\ tk[2] = w.e /\ ~tk[4])
+       /\ (\E i \in ResOf(o.snap[w.e], w.h, w.b) : o.snap[w.e].res[i].err \in {"Cancelled:pending", "Cancelled:interrupted"})   -> "F0"
     [] w.c = "C04.incomplete" /\ w.k = "held"                                -> "F1"
     [] w.c = "C02.fifo" /\ w.k = "in"                                        -> "G1"
-    [] w.c = "C06.overlap" /\ w.k = "parsib"                                 -> "G9"
+    [] w.c \in {"C06.overlap", "C02.serial"} /\ w.k = "parsib"               -> "G9"
     [] w.c = "C16.start_after_stop" /\ w.k = "in"                            -> "G2"
     [] w.c = "C16.start_after_stop" /\ w.k = "rl_restart"                    -> "G3"
     [] w.c \in {"C08.regress", "C08.results_added"} /\ w.k = "newbus"        -> "F4"
